@@ -189,7 +189,7 @@ theorem numeral_roundtrip_in_statement (nm : Numeral) (h : nm.WF) :
       split <;> exact ⟨_, rfl⟩
   obtain ⟨l, hl⟩ := hl
   rw [hl]
-  simp [postPasses, trimEnd, collapseTriples, tripleLocs, tripleMatch, collapseDoubles, doubleLocs,
+  simp [postPasses, trimEnd, trimEndRev, collapseTriples, tripleLocs, tripleMatch, collapseDoubles, doubleLocs,
     doubleMatch, separateWords, wordLocs, applyLocs, Token.isWord, Operator.isWord]
 
 example : lex "X=12345678".toList =
@@ -336,7 +336,7 @@ theorem postPasses_remark (w : Word) (hw : w = .rem1 ∨ w = .rem2) (s : List Ch
       if (trimEndStr s).isEmpty then [.word w] else [.word w, .unknown (trimEndStr s)] := by
   have h1 : trimEnd [.word w, .unknown s] =
       if (trimEndStr s).isEmpty then [.word w] else [.word w, .unknown (trimEndStr s)] := by
-    simp [trimEnd]
+    cases w <;> simp [trimEnd, trimEndRev] <;> split <;> simp_all
   rw [postPasses, h1]
   split <;> rcases hw with h | h <;> subst h <;>
     simp [collapseTriples, tripleLocs, tripleMatch, collapseDoubles, doubleLocs,
@@ -376,10 +376,43 @@ example : lex "REM Keep  this ".toList = (none, [.word .rem1, .unknown " Keep  t
 /-! ### trailing carriage return and the like -/
 
 /-- a run of white space that is not blank/tab is one `Unknown` token, and `trim_end` removes it
-    without a trace (unless that uncovers another `Unknown` token) -/
-theorem trailing_white_trimmed (l : List Token) (w : List Char) (hw : ∀ c ∈ w, isOddWhite c = true)
-    (h : ∀ x ∈ l, ∀ s, x ≠ .unknown s) : trimEnd (l ++ [.unknown w]) = trimEnd l :=
-  trimEnd_trailing_white l w hw h
+    without a trace -/
+theorem trailing_white_trimmed (l : List Token) (w : List Char) (hw : ∀ c ∈ w, isOddWhite c = true) :
+    trimEnd (l ++ [.unknown w]) = trimEnd l :=
+  trimEnd_trailing_white l w hw
+
+/-- `trim_end` is idempotent: what it leaves is not trimmed further (so a listed line, entered
+    again, ends where it ended; repaired in the code, D18: the loop used to run only once) -/
+theorem trimEnd_idem (ts : List Token) : trimEnd (trimEnd ts) = trimEnd ts := by
+  have hstr : ∀ s : List Char, trimEndStr (trimEndStr s) = trimEndStr s := by
+    intro s
+    have hd : ∀ l : List Char, (l.dropWhile isUniWhite).dropWhile isUniWhite = l.dropWhile isUniWhite := by
+      intro l
+      induction l with
+      | nil => rfl
+      | cons a l ih =>
+        by_cases ha : isUniWhite a = true
+        · simp only [List.dropWhile_cons, ha, if_true]; exact ih
+        · simp [List.dropWhile_cons, ha]
+    simp [trimEndStr, hd]
+  have h : ∀ r : List Token, trimEndRev (trimEndRev r) = trimEndRev r := by
+    intro r
+    induction r with
+    | nil => rfl
+    | cons t r ih =>
+      cases t with
+      | whitespace n => simpa [trimEndRev] using ih
+      | unknown s =>
+        simp only [trimEndRev]
+        split
+        · exact ih
+        · rename_i hne
+          simp [trimEndRev, hstr, hne]
+      | _ => simp [trimEndRev]
+  simp [trimEnd, h]
+
+example : trimEnd [.word .print, .unknown [Char.ofNat 0x85], .whitespace 1, .unknown ['\r']] = [.word .print] := by
+  decide
 
 example : trimEnd [.word .print, .whitespace 1, .unknown ['\r']] = [.word .print] := by decide
 
@@ -413,11 +446,12 @@ theorem second_exponent_letter_faithful :
 
 example : relist "?1E0e".toList = "PRINT 1E0 E".toList := by decide +kernel
 
-/-- residue of the trailing-white-space finding: `trim_end` looks at the last token only once, so two
-    white-space-only tokens separated by blanks leave one behind, which the listing then loses -/
-theorem separated_unicode_space_not_faithful :
-    (lex ['\r', ' ', Char.ofNat 0x85]).2 = [.unknown ['\r']] ∧
-    (lex (relist ['\r', ' ', Char.ofNat 0x85])).2 = [] := by
+/-- (former finding, repaired in the code, D18) `trim_end` used to look at the last token only once, so
+    two white-space-only tokens separated by blanks left one behind, which the listing then lost -/
+theorem separated_unicode_space_faithful :
+    (lex ['\r', ' ', Char.ofNat 0x85]).2 = [] ∧
+    (lex (relist ['\r', ' ', Char.ofNat 0x85])).2 = [] ∧
+    lex ("X=O".toList ++ [Char.ofNat 0x85, '\t', Char.ofNat 0xA0]) = lex "X=O".toList := by
   decide +kernel
 
 /-- two comparison operators separated by a blank do not survive listing: `<= <=` is listed as
